@@ -934,6 +934,8 @@ RULES = {
         ("fls ( mantissa )", "fls64 ( mantissa )"),
         ("Some ( if self . sign == Minus { - n } else { n } )", "Some ( if self . sign == Minus { n . negf ( ) } else { n } )"),
     ]),
+    "R57": Rule("R57", "self.data.clone_from(&other.data) -> __vec_u64_clone_from(&mut self.data, &other.data)  (std: `Vec::clone_from` makes the receiver a clone of the argument, reusing its allocation; element type u64, whose clone is a copy)",
+                "self . data . clone_from ( & other . data )", "__vec_u64_clone_from ( & mut self . data , & other . data )"),
     "R14n": Rule("R14n", "debug_assert_ne!(..); -> (dropped)", "debug_assert_ne ! ( $$c ) ;", ""),
     "R10n": Rule("R10n", "for _ in A..E { BODY } -> { let mut i__ = A; let e__ = E; while i__ < e__ { i__ += 1; BODY } }  (std: Range yields A, .., E-1; bounds evaluated once)",
                  "for _ in $$a .. $$e { $$body }", "{ let mut i__ = $$a ; let e__ = $$e ; while i__ < e__ { i__ += 1 ; $$body } }",
